@@ -222,7 +222,7 @@ func c10StopWithEventInHand(c *Ctx, r gen.R, round int) {
 	var lerr error
 	select {
 	case lerr = <-done:
-	case <-time.After(5 * time.Second):
+	case <-liveAfter(5 * time.Second):
 		c.Res.Violate("C10:stop:hang", "Listen did not return within 5 s of the stop signal (callback busy, an event in hand)", nil, int64(round))
 		return
 	}
@@ -649,7 +649,7 @@ func c10(c *Ctx) {
 		select {
 		case lerr = <-done:
 			returned = true
-		case <-time.After(5 * time.Second):
+		case <-liveAfter(5 * time.Second):
 		}
 		tReturn := farm.Mono()
 		c.Res.Eval(1)
@@ -827,7 +827,7 @@ func c10(c *Ctx) {
 				if err != nil && ok {
 					c.Res.Violate("C10:stop:error", "Listen returned an error after the stop signal: "+err.Error(), nil, int64(i))
 				}
-			case <-time.After(5 * time.Second):
+			case <-liveAfter(5 * time.Second):
 				c.Res.Violate("C10:stop:hang", "Listen did not return within 5 s of the stop signal (rapid cycle)", nil, int64(i))
 				return
 			}
@@ -881,7 +881,7 @@ func c10SignalledBeforeStart(c *Ctx, k int) {
 			c.Res.Violate("C10:stop:error", fmt.Sprintf("Listen, called with the stop signal (%v) already in the channel, returned an error: %v", sig, err), nil, int64(k))
 			return
 		}
-	case <-time.After(5 * time.Second):
+	case <-liveAfter(5 * time.Second):
 		c.Res.Violate("C10:stop:hang", fmt.Sprintf("Listen, called with the stop signal (%v) already in the channel, did not return within 5 s", sig), nil, int64(k))
 		q <- sig // let it go if it still can
 		return
@@ -983,7 +983,7 @@ func c10Idle(c *Ctx, r gen.R) {
 		if err != nil {
 			c.Res.Violate("C10:stop:error", "Listen returned an error after the stop signal: "+err.Error(), nil, 0)
 		}
-	case <-time.After(5 * time.Second):
+	case <-liveAfter(5 * time.Second):
 		c.Res.Violate("C10:stop:hang", "Listen did not return within 5 s of the stop signal (after a long quiet period)", nil, 0)
 		return
 	}
